@@ -41,6 +41,44 @@ theorem epochRange_split_snoc {a b e : Int} {l r : List Int} (h : epochRange a b
   obtain ⟨h1, h2, _, _⟩ := epochRange_split b l a e r h
   rw [epochRange_snoc a e h2, h1]
 
+/-- `any` over the positions of `l₁ ++ [·] ++ l₂`, the middle position contributing nothing -/
+theorem any_range_split {β : Type} (l₁ l₂ : List β) (g₁ g₂ : β → Bool) :
+    (List.range (l₁.length + 1 + l₂.length)).any (fun i =>
+      if i < l₁.length then
+        match l₁[i]? with
+        | some x => g₁ x
+        | none => false
+      else
+        match l₂[i - l₁.length - 1]? with
+        | some x => decide (l₁.length < i) && g₂ x
+        | none => false) = (l₁.any g₁ || l₂.any g₂) := by
+  rw [Bool.eq_iff_iff]
+  simp only [List.any_eq_true, List.mem_range, Bool.or_eq_true]
+  constructor
+  · rintro ⟨i, hi, h⟩
+    by_cases hlt : i < l₁.length
+    · rw [if_pos hlt, List.getElem?_eq_getElem hlt] at h
+      exact Or.inl ⟨l₁[i], List.getElem_mem hlt, h⟩
+    · rw [if_neg hlt] at h
+      cases hx : l₂[i - l₁.length - 1]? with
+      | none => rw [hx] at h; simp at h
+      | some x =>
+        rw [hx] at h
+        simp only [Bool.and_eq_true, decide_eq_true_eq] at h
+        exact Or.inr ⟨x, List.mem_of_getElem? hx, h.2⟩
+  · rintro (⟨x, hx, hg⟩ | ⟨x, hx, hg⟩)
+    · obtain ⟨i, hi, rfl⟩ := List.getElem_of_mem hx
+      refine ⟨i, by omega, ?_⟩
+      rw [if_pos hi, List.getElem?_eq_getElem hi]
+      exact hg
+    · obtain ⟨j, hj, rfl⟩ := List.getElem_of_mem hx
+      refine ⟨l₁.length + 1 + j, by omega, ?_⟩
+      rw [if_neg (by omega)]
+      have : l₁.length + 1 + j - l₁.length - 1 = j := by omega
+      rw [this, List.getElem?_eq_getElem hj]
+      simp only [Bool.and_eq_true, decide_eq_true_eq]
+      exact ⟨by omega, hg⟩
+
 section
 variable {W α : Type} [Sub α] [Div α] [Zero α] [BEq α] [LT α] [DecidableLT α] [Transc α]
 
@@ -391,6 +429,51 @@ theorem stopperReq_reqEv (c : Cfg) (hst : stId ∈ c.cbs) (ev : Event) :
     | true =>
       simp only [Bool.and_true, List.any_eq_true, beq_iff_eq]
       exact ⟨stId, hst, rfl⟩
+  | _ => simp
+
+theorem multiReq_reqEv (before after : List (StopSrc α)) (c : Cfg)
+    (hc : c.cbs = List.range (before.length + 1 + after.length)) (ev : Event) :
+    reqEv c (multiReq before after ev₀ wof c.start) ev =
+      match ev with
+      | .epochEnd e => multiAsk before after ev₀ wof c.start e
+      | _ => false := by
+  unfold reqEv multiReq
+  cases ev with
+  | epochEnd e =>
+    simp only [multiAsk]
+    cases h1 : evalAfter ev₀ wof (epochRange c.start (e - 1)) with
+    | error err => simp
+    | ok evb =>
+      simp only
+      cases h2 : evb.onEpochEnd e (wof e) with
+      | error err =>
+        simp only [Bool.or_false]
+        have := any_range_split before ([] : List (StopSrc α)) (fun src => srcAsks src evb e) (fun _ => false)
+        simp only [List.length_nil, Nat.add_zero, List.any_nil, Bool.or_false] at this
+        rw [hc]
+        unfold srcsAsk
+        rw [← this]
+        rw [Bool.eq_iff_iff]
+        simp only [List.any_eq_true, List.mem_range]
+        constructor
+        · rintro ⟨i, hi, h⟩
+          by_cases hlt : i < before.length
+          · exact ⟨i, by omega, by simpa [hlt] using h⟩
+          · simp [hlt] at h
+        · rintro ⟨i, hi, h⟩
+          by_cases hlt : i < before.length
+          · exact ⟨i, by omega, by simpa [hlt] using h⟩
+          · simp [hlt] at h
+      | ok eva =>
+        simp only
+        rw [hc]
+        unfold srcsAsk
+        refine Eq.trans ?_ (any_range_split before after (fun src => srcAsks src evb e) (fun src => srcAsks src eva e))
+        congr 1
+        funext i
+        by_cases hlt : i < before.length
+        · simp only [hlt, if_true]; cases before[i]? <;> rfl
+        · simp only [hlt, if_false]; cases after[i - before.length - 1]? <;> rfl
   | _ => simp
 
 theorem stopperReq_mid (c : Cfg) (e : Int) (b : Nat) :
